@@ -276,6 +276,18 @@ int main(int argc, char** argv)
                 {
                     if (!rec)
                         continue;
+                    if (rec->stale_detector_slots)
+                    {
+                        R.violation("scoring:detector-id-on-vacant-slot", cid,
+                                    fmt("%s: %llu vacant slots (null track id) were delivered with a "
+                                        "detector id set (first: %s): consumers that select slots by "
+                                        "detector id score the stale step again",
+                                        sc.id.c_str(), (unsigned long long)rec->stale_detector_slots,
+                                        rec->stale_detector_first.c_str()));
+                        rec->stale_detector_slots = 0;
+                        rec->stale_detector_first.clear();
+                        return true;
+                    }
                     std::map<std::pair<unsigned, unsigned>, StepRec const*> got;
                     for (auto const& r : rec->steps)
                     {
